@@ -63,4 +63,8 @@ def jobs(seed=0):
     return cache_jobs() + [Job(name="static.inventory", props=["C12", "C15", "C07"], shape="S7", sources=[], harness="", entry="", kind="native",
                 native_cmd=["python3", "tools/static_inventory.py"], functions=[], timeout=900,
                 bound_note="goto symbol tables + call graph of /repo's current sources; function pointers through module->func resolved "
-                           "to the targets module_api.c stores, other indirect calls to every type-compatible function")]
+                           "to the targets module_api.c stores, other indirect calls to every type-compatible function"),
+                            Job(name="static.alignment", props=["C15", "C11", "C07"], shape="S7", sources=[], harness="", entry="", kind="native",
+                                native_cmd=["python3", "tools/align_inventory.py"], functions=[], timeout=120,
+                                bound_note="source inventory (not a proof): aligned-access intrinsics only as loads of precomputed twiddle tables, no "
+                                           "computation on a pointer's alignment, no aligned vector moves in the .s kernels")]
